@@ -1283,6 +1283,8 @@ class Interp:
         def b_list(s=()):
             if isinstance(s, V.SymSeq) and not s.is_concrete():
                 return s
+            if isinstance(s, V.SymTuple):
+                return V.SymIntList(s.s)
             return list(it.iterate(s))
 
         def b_all(s):
